@@ -177,6 +177,150 @@ func c14RoutesNowhere(route *ssa.Function, from, to *ssa.BasicBlock, depth int) 
 	return true
 }
 
+// c14DiffersFrom: the package-level ids (by name) that the facts prove the value id to differ from: a comparison
+// `id == G` known false / `id != G` known true, or the verdict of a boolean helper of the package that was handed id
+// and cannot give that verdict when id is G.
+func c14DiffersFrom(id ssa.Value, facts []flow.Fact, depth int) map[string]bool {
+	out := map[string]bool{}
+	if depth > 3 {
+		return out
+	}
+	globalOf := func(v ssa.Value) *ssa.Global {
+		if u, isU := v.(*ssa.UnOp); isU && u.Op == token.MUL {
+			g, _ := u.X.(*ssa.Global)
+			return g
+		}
+		return nil
+	}
+	for _, f := range facts {
+		switch x := f.Cond.(type) {
+		case *ssa.BinOp:
+			if !(x.Op == token.EQL && !f.True) && !(x.Op == token.NEQ && f.True) {
+				continue
+			}
+			if g := globalOf(x.Y); g != nil && x.X == id {
+				out[g.Name()] = true
+			} else if g := globalOf(x.X); g != nil && x.Y == id {
+				out[g.Name()] = true
+			}
+		case *ssa.Call:
+			h := x.Common().StaticCallee()
+			if h == nil || h.Blocks == nil || x.Common().IsInvoke() || h.Signature.Results().Len() != 1 {
+				continue
+			}
+			for i, a := range x.Common().Args {
+				if a != id || i >= len(h.Params) {
+					continue
+				}
+				// whenever h answers f.True, its parameter differs from ...
+				var all map[string]bool
+				n := 0
+				for _, b := range h.Blocks {
+					ret, isRet := b.Instrs[len(b.Instrs)-1].(*ssa.Return)
+					if !isRet {
+						continue
+					}
+					for _, d := range phiEdgesWithBlocks(ret.Results[0], b) {
+						fs := append([]flow.Fact{}, flow.FactsAt(d.b)...)
+						if cst, isC := d.v.(*ssa.Const); isC {
+							if cst.Value == nil || cst.Value.Kind() != constant.Bool {
+								return map[string]bool{}
+							}
+							if constant.BoolVal(cst.Value) != f.True {
+								continue // this way out gives the other verdict
+							}
+						} else {
+							fs = append(fs, flow.Expand([]flow.Fact{{Cond: d.v, True: f.True}})...)
+						}
+						n++
+						got := c14DiffersFrom(h.Params[i], fs, depth+1)
+						if all == nil {
+							all = got
+						} else {
+							for k := range all {
+								if !got[k] {
+									delete(all, k)
+								}
+							}
+						}
+					}
+				}
+				if n > 0 {
+					for k := range all {
+						out[k] = true
+					}
+				}
+			}
+		}
+	}
+	return out
+}
+
+// walkSite: a place in RunMachines where machines are walked.
+type walkSite struct {
+	call *ssa.Call
+	once bool // one machine at most, once at most, per execution of the call
+}
+
+// c14WalkSites lists the places of f where a machine is walked: the calls of RunMachine and the calls of helpers of
+// the same package that walk (transitively).  A helper call walks once if the helper has a single walk site, itself
+// walking once, that is not on a cycle of the helper.
+func c14WalkSites(f, rm *ssa.Function, depth int) []walkSite {
+	var out []walkSite
+	if f == nil || rm == nil {
+		return nil
+	}
+	ssau.Instrs(f, func(in ssa.Instruction) {
+		cl, ok := in.(*ssa.Call)
+		if !ok {
+			return
+		}
+		h := cl.Common().StaticCallee()
+		switch {
+		case h == nil:
+		case h == rm:
+			out = append(out, walkSite{cl, true})
+		case h.Blocks != nil && h != f && depth < 3 && prog.PkgOf(h) == prog.PkgOf(f):
+			inner := c14WalkSites(h, rm, depth+1)
+			if len(inner) > 0 {
+				out = append(out, walkSite{cl, len(inner) == 1 && inner[0].once && !flow.InCycle(inner[0].call.Block())})
+			}
+		}
+	})
+	return out
+}
+
+// c14Excluded: the ids that no append in fn can add to a list.
+func c14Excluded(fn *ssa.Function) map[string]bool {
+	var all map[string]bool
+	ssau.Instrs(fn, func(in ssa.Instruction) {
+		ap, ok := in.(*ssa.Call)
+		if !ok {
+			return
+		}
+		if b, isB := ap.Common().Value.(*ssa.Builtin); !isB || b.Name() != "append" {
+			return
+		}
+		got := map[string]bool{}
+		if elems, spread := appended(ap); spread == nil && len(elems) == 1 {
+			got = c14DiffersFrom(elems[0], flow.FactsAt(ap.Block()), 0)
+		}
+		if all == nil {
+			all = got
+			return
+		}
+		for k := range all {
+			if !got[k] {
+				delete(all, k)
+			}
+		}
+	})
+	if all == nil {
+		all = map[string]bool{}
+	}
+	return all
+}
+
 func C14(c *Ctx) {
 	c.R.Explanation = "Decides structural necessary conditions of exactly-once routing for both crew hosts: (R1) every list of recipients returned by the sio recipient selection is the key set of the live machine map computed in that call, a singleton, or the result of the de-duplicating helper (whose appends are guarded by a seen-set bind-if-absent); (R2) the ids excluded from broadcast are the service machine ids and mcrew's reserved names route to no machine; (R3) sio.ProcessMsg's pending queue is a front-pop FIFO (the message processed is element 0, the queue continues as [1:], new messages are appended at the back, the loop runs until it is empty) and every recipient returned is walked once; (R4) mcrew re-injects every emitted message by its own goroutine, unconditionally, once per element of every stride's Emitted. Counts over real histories are not decided."
 	c.R.Rule("C14-R1", "E5", "duplicate-free, live recipient lists", 4)
@@ -335,42 +479,9 @@ func C14(c *Ctx) {
 	})
 	c.R.Check(okLive && nLiveRet > 0 && rangesLive, "C14-R1", "allMachines: the live machine map's keys", c.P.Pos(allM.Pos()), "a fresh list appended from a range over Crew.Machines", whyLive)
 	// ---- R2 reserved ids
-	excluded := map[string]bool{}
-	ssau.Instrs(allM, func(in ssa.Instruction) {
-		if bo, ok := in.(*ssa.BinOp); ok && bo.Op == token.EQL {
-			for _, side := range []ssa.Value{bo.X, bo.Y} {
-				if u, isU := side.(*ssa.UnOp); isU {
-					if g, isG := u.X.(*ssa.Global); isG {
-						// the append must not be reachable on the equal edge
-						for _, r := range ssau.Referrers(bo) {
-							if iff, isIf := r.(*ssa.If); isIf {
-								appendsOnEq := false
-								for blk := range flow.ReachableFrom(iff.Block(), map[*ssa.BasicBlock]bool{iff.Block().Succs[1]: true}) {
-									if blk == allM.Blocks[0] {
-										continue
-									}
-									_ = blk
-								}
-								eq := iff.Block().Succs[0]
-								if len(eq.Instrs) > 0 {
-									for _, in2 := range eq.Instrs {
-										if cl, isC := in2.(*ssa.Call); isC {
-											if bi, isB := cl.Common().Value.(*ssa.Builtin); isB && bi.Name() == "append" {
-												appendsOnEq = true
-											}
-										}
-									}
-								}
-								if !appendsOnEq {
-									excluded[g.Name()] = true
-								}
-							}
-						}
-					}
-				}
-			}
-		}
-	})
+	// an id is excluded if, at every append of allMachines, the conditions in force say that the appended id is not
+	// that id (a `switch`, an `if ... { continue }`, or a predicate helper that is handed the id)
+	excluded := c14Excluded(allM)
 	var ex []string
 	for k := range excluded {
 		ex = append(ex, k)
@@ -473,7 +584,7 @@ func C14(c *Ctx) {
 				if w.same(v.X, cq.q) && v.X != ssa.Value(v) && isSliceT(v.X.Type()) {
 					if isC && n == 1 && v.High == nil && v.Max == nil {
 						pops++
-						if !cq.loop.Blocks[v.Block()] {
+						if !cq.inLoop(v) {
 							okQ = false
 							why = append(why, "pop outside the loop")
 						}
@@ -547,8 +658,8 @@ func C14(c *Ctx) {
 		})
 		// the head is taken from the queue as it stands before the pop of the same trip
 		for _, m := range w.members(cq.q) {
-			if sl, isSl := m.(*ssa.Slice); isSl && w.same(sl.X, cq.q) && cq.loop.Blocks[sl.Block()] {
-				if !flow.InstrDominates(cq.head, sl) {
+			if sl, isSl := m.(*ssa.Slice); isSl && w.same(sl.X, cq.q) && cq.inLoop(sl) {
+				if !cq.headBefore(sl) {
 					okHead = false
 				}
 				if sameSliceValue(w, sl.X, cq.head.X) == false {
@@ -560,16 +671,11 @@ func C14(c *Ctx) {
 	}
 	// RunMachines walks each returned recipient once: a single range over the ids with one RunMachine call
 	runM := c.P.Func("sio", "Crew", "RunMachine")
-	nwalk := 0
-	var walkCall ssa.Instruction
-	ssau.Instrs(runMs, func(in ssa.Instruction) {
-		if ci, ok := in.(ssa.CallInstruction); ok && ci.Common().StaticCallee() == runM {
-			nwalk++
-			walkCall = in
-		}
-	})
-	okWalk := nwalk == 1
+	// the walk may be a call of RunMachine or of a helper of the package that runs one machine at most once
+	walks := c14WalkSites(runMs, runM, 0)
+	okWalk := len(walks) == 1 && walks[0].once
 	if okWalk {
+		walkCall := walks[0].call
 		L := flow.InnermostLoop(flow.Loops(runMs), walkCall.Block())
 		okWalk = L != nil
 		if L != nil {
